@@ -262,6 +262,12 @@ impl<'m> MCTPSMBusContext<'m> {
         &self,
         packet: &'a [u8],
     ) -> Result<ControlDecodedPacketData<'a>, (MessageType, DecodeError)> {
+        // The shortest possible packet holds the SMBus header, the transport
+        // header, the message type byte and the PEC.
+        if packet.len() < 10 {
+            return Err((MessageType::Invalid, DecodeError::Unknown));
+        }
+
         let (smbus_header, base_header, body_header) = self.get_smbus_headers(packet)?;
 
         let calculated_pec = pec(&packet[0..(packet.len() - 1)]);
@@ -376,6 +382,14 @@ impl<'m> MCTPSMBusContext<'m> {
         packet: &'a [u8],
         calculated_pec: u8,
     ) -> Result<ControlRawPacketData<'a, 'b>, (MessageType, DecodeError)> {
+        // A control message holds at least the two header bytes and the PEC
+        if packet.len() < 3 {
+            return Err((
+                MessageType::MCtpControl,
+                DecodeError::ControlMessage(ControlMessageError::InvalidControlHeader),
+            ));
+        }
+
         // Decode the header
         let mut control_message_header_buf: [u8; 2] = [0; 2];
         control_message_header_buf.copy_from_slice(&packet[0..2]);
@@ -389,7 +403,14 @@ impl<'m> MCTPSMBusContext<'m> {
                     (2, None, control_message_header.get_request_data_len())
                 }
                 0 => {
-                    // Response
+                    // Response, it also carries a completion code
+                    if packet.len() < 4 {
+                        return Err((
+                            MessageType::MCtpControl,
+                            DecodeError::ControlMessage(ControlMessageError::InvalidControlHeader),
+                        ));
+                    }
+
                     if packet[2] != CompletionCode::Success as u8 {
                         return Err((
                             MessageType::MCtpControl,
